@@ -113,30 +113,38 @@ func (s *SpecValidator) Validate(data interface{}) (*Result, *Result) {
 		// warnings only warnings
 		errs.MergeAsWarnings(warnings)
 		warnings.AddErrors(errs.Warnings...)
+		verifPhase("return", errs, warnings)
 	}()
 
 	// Swagger schema validator
 	schv := newSchemaValidator(s.schema, nil, "", s.KnownFormats, s.schemaOptions)
 	errs.Merge(schv.Validate(obj)) // error -
+	verifPhase("schema", errs, warnings)
 	// There may be a point in continuing to try and determine more accurate errors
 	if !s.Options.ContinueOnErrors && errs.HasErrors() {
 		return errs, warnings // no point in continuing
 	}
 
 	errs.Merge(s.validateReferencesValid()) // error -
+	verifPhase("refs", errs, warnings)
 	// There may be a point in continuing to try and determine more accurate errors
 	if !s.Options.ContinueOnErrors && errs.HasErrors() {
 		return errs, warnings // no point in continuing
 	}
 
 	errs.Merge(s.validateDuplicateOperationIDs())
+	verifPhase("dupOpIds", errs, warnings)
 	errs.Merge(s.validateDuplicatePropertyNames()) // error -
+	verifPhase("dupProps", errs, warnings)
 	errs.Merge(s.validateParameters())             // error -
+	verifPhase("params", errs, warnings)
 	errs.Merge(s.validateItems())                  // error -
+	verifPhase("items", errs, warnings)
 
 	// Properties in required definition MUST validate their schema
 	// Properties SHOULD NOT be declared as both required and readOnly (warning)
 	errs.Merge(s.validateRequiredDefinitions()) // error and warning
+	verifPhase("requiredDefs", errs, warnings)
 
 	// There may be a point in continuing to try and determine more accurate errors
 	if !s.Options.ContinueOnErrors && errs.HasErrors() {
@@ -146,17 +154,21 @@ func (s *SpecValidator) Validate(data interface{}) (*Result, *Result) {
 	// Values provided as default MUST validate their schema
 	df := &defaultValidator{SpecValidator: s, schemaOptions: s.schemaOptions}
 	errs.Merge(df.Validate())
+	verifPhase("defaults", errs, warnings)
 
 	// Values provided as examples MUST validate their schema
 	// Value provided as examples in a response without schema generate a warning
 	// Known limitations: examples in responses for mime type not application/json are ignored (warning)
 	ex := &exampleValidator{SpecValidator: s, schemaOptions: s.schemaOptions}
 	errs.Merge(ex.Validate())
+	verifPhase("examples", errs, warnings)
 
 	errs.Merge(s.validateNonEmptyPathParamNames())
+	verifPhase("pathParamNames", errs, warnings)
 
 	// errs.Merge(s.validateRefNoSibling()) // warning only
 	errs.Merge(s.validateReferenced()) // warning only
+	verifPhase("referenced", errs, warnings)
 
 	return errs, warnings
 }
